@@ -36,11 +36,8 @@ Definition rtopk_step (st : store * list (option rtopk)) (op : tok) : (store * l
       | None => (st, T_INVALID)
       end
   | [TN 8; TN i; TB meta; TN er; TN acc] =>
-      let k := atoi (r_hget s meta f_k) in
-      let hkey := match r_hget s meta f_heapkey with Some b => b | None => [] end in
-      let smeta := match r_hget s meta f_sketchkey with Some b => b | None => [] end in
-      match rcms_attach s smeta with
-      | Ok sk => ((s, set_inst hs (N.to_nat i) (mkRtopk k er acc sk hkey meta)), tu (Ok tt))
+      match rtopk_attach s meta er acc with
+      | Ok t => ((s, set_inst hs (N.to_nat i) t), tu (Ok tt))
       | Err e => (st, tu (@Err unit e))
       | Panic e => (st, tu (@Panic unit e))
       end
@@ -63,11 +60,8 @@ Definition rtopk_step (st : store * list (option rtopk)) (op : tok) : (store * l
      TB hkey; TB skey; TB smeta] =>
       match get_inst hs i with
       | Some t =>
-          let s0 := sdel s hkey in
-          let s1 := fold_left (fun st' e => match e with
-                                            | TL [TB v; TN f] => r_zadd st' hkey v f
-                                            | _ => st'
-                                            end) hs' s0 in
+          let s1 := rtopk_import_heap s hkey
+                      (flat_map (fun e => match e with TL [TB v; TN f] => [(v, f)] | _ => [] end) hs') in
           match rcms_new s1 r c skey smeta with
           | (Ok sk, s2) =>
               let m := map (fun row => map tok_N (tok_L row)) rows in
